@@ -1124,6 +1124,9 @@ class _CellRange(_CellBase):
     def __iter__(self):
         return flatten(self.addresses)
 
+    def start_calcs(self):
+        """Ranges are not tracked by the iterative calculation"""
+
     @property
     def serialize(self):
         # Ranges with formulas need to be serialized
